@@ -2,6 +2,7 @@
   C17 — non-acquiring operations never wait and never disturb holds.
 -/
 import HLV.Props.HoldFamily
+import HLV.Static.Rules
 namespace HLV
 
 -- @theorem C17_debug_never_blocks_and_restores_holds : Debug-formatting a lock or collection of any shape, from any hold state of the caller (including holding the very locks being formatted), issues no blocking acquisition, and whether it returns or unwinds — because a raw operation faults or because the payload's own Debug impl panics (bomb, at any leaf) — the caller's holds are exactly what they were
@@ -28,5 +29,12 @@ theorem C17_debug_inside_a_hold_is_harmless (n : Nat) (ro : RankOpt) (C : Ctx) (
   bodySteps_spec C S m _ g _ _ hc
     (by intro b hb; rcases List.mem_cons.1 hb with rfl | h; exact trivial; exact hrest b h)
     (fun _ a b => ⟨a, b⟩) (fun _ a b => ⟨a, b⟩)
+
+section
+open HLV.Static HLV.Gen
+set_option maxRecDepth 1000000
+-- @theorem C17_nonacquiring_functions_reach_no_blocking_operation_in_the_source : (table theorem, regenerated from the source on every run) from no non-acquiring function (Debug::fmt, is_poisoned, clear_poison, accessors, constructors, into_*) is a blocking raw operation reachable in the call graph
+theorem C17_nonacquiring_functions_reach_no_blocking_operation_in_the_source : c17_nonAcqReachesBlocking = [] := by decide +kernel
+end
 
 end HLV
